@@ -1,6 +1,7 @@
 import Pcore.Proofs.ObjectDefine
 import Pcore.Proofs.ObjectSchema
 import Pcore.Proofs.ObjectInitHash
+import Pcore.Proofs.ObjectClosure
 import Pcore.Generated.ObjectSchema
 import Mathlib.Data.List.Perm.Subperm
 /-!
@@ -39,6 +40,11 @@ Full statement / proved / missing
                          same type).  `C17_include_type_honoured`: the former known finding, replayed in the model.
 * `C17_subtype`        — proved: an ancestor (any non-empty suffix of the level list) accepts every instance;
                          `C17_subtype_strict`: a type never accepts an instance of a proper ancestor.
+* `C17_instance_closure` — proved: among the types of one loader (`defineAll [] ds = .ok env`, any number of definitions)
+                         `isInstance env[i] o` for an object of type `env[j]` holds exactly when `i` is reached from `j`
+                         by following `parent` (Relation.ReflTransGen of `parentRel ds`); `C17_assignable_closure` the same
+                         for `IsAssignable`.  (Interfaces — attribute-less types with functions, matched structurally —
+                         are outside the model: implementation-only streams `@iface`, `@objd`.)
 * `C17_schema`         — proved: every `WellFormedDef` (attributes well-formed on their own, each a fresh name or a proper
                          override; equality names non-constant attributes not already in an inherited equality;
                          serialization names positional attributes, each once, with required never after optional) whose names match
@@ -625,6 +631,26 @@ theorem C17_subtype_strict {p t : OType} (h : p <:+ t) (hne : p ≠ t) (o : Obj)
     have hle := h.length_le
     exact hne (h.eq_of_length (by omega))
 
+/-- instance-of is the REFLEXIVE-TRANSITIVE CLOSURE of `parent`: among the types of one loader (ANY accepted list of
+    definitions, any depth, forks and unrelated roots included) an object of type `j` is an instance of type `i` exactly
+    when `i` is reached from `j` by following the declared parent zero or more times — every ancestor accepts, and
+    nothing else does (no descendant, no sibling, no stranger).  `parentRel ds p j`: definition `j` names the earlier
+    definition `p` as its parent. -/
+theorem C17_instance_closure {ds : List Def} {env : List OType} (h : defineAll [] ds = .ok env) {i j : Nat}
+    {ti tj : OType} (hi : env[i]? = some ti) (hj : env[j]? = some tj) (o : Obj) (ho : o.typ = tj) :
+    isInstance ti o = true ↔ Relation.ReflTransGen (parentRel ds) i j := by
+  have hg : GoodEnv ds env := by simpa using defineAll_good goodEnv_nil h
+  unfold isInstance
+  rw [ho]
+  exact isAssignable_closure hg hi j tj hj
+
+/-- the same for types: `IsAssignable` -/
+theorem C17_assignable_closure {ds : List Def} {env : List OType} (h : defineAll [] ds = .ok env) {i j : Nat}
+    {ti tj : OType} (hi : env[i]? = some ti) (hj : env[j]? = some tj) :
+    isAssignable ti tj = true ↔ Relation.ReflTransGen (parentRel ds) i j := by
+  have hg : GoodEnv ds env := by simpa using defineAll_good goodEnv_nil h
+  exact isAssignable_closure hg hi j tj hj
+
 /-! ### the definition re-created from the InitHash of the type it defined -/
 
 /-- FULL statement: every accepted definition, re-created from the InitHash of the type it defined (`typeDef`, what
@@ -782,6 +808,18 @@ example : sampleT0 ≠ [] ∧ sampleT0 <:+ sampleT2 ∧ sampleT0 ≠ sampleT2 :=
   ⟨by decide, ⟨sampleT2.take 2, rfl⟩, by decide⟩
 example : isInstance sampleT0 { typ := sampleT2, values := [.int 1] } = true ∧
     isInstance sampleT2 { typ := sampleT0, values := [.int 1] } = false := ⟨rfl, rfl⟩
+/-- hypotheses of `C17_instance_closure` on the sample (0 ← 1 ← 2, 0 ← 3): the grand-parent is reached from the grand-child in
+    two steps, so it accepts its instances; the sibling branch 3 is not reached from 2 (the theorem turns the model's
+    `false` into the statement about the closure) -/
+example : parentRel sampleDefs 1 2 ∧ parentRel sampleDefs 0 1 ∧ parentRel sampleDefs 0 3 :=
+  ⟨⟨by decide, _, rfl, rfl⟩, ⟨by decide, _, rfl, rfl⟩, ⟨by decide, _, rfl, rfl⟩⟩
+example : isInstance sampleT0 { typ := sampleT2, values := [.int 1] } = true :=
+  (C17_instance_closure (rfl : defineAll [] sampleDefs = .ok sampleEnv) (i := 0) (j := 2) rfl rfl _ rfl).mpr
+    ((Relation.ReflTransGen.single ⟨by decide, _, rfl, rfl⟩).tail ⟨by decide, _, rfl, rfl⟩)
+example : ¬ Relation.ReflTransGen (parentRel sampleDefs) 3 2 := fun hr =>
+  absurd ((C17_instance_closure (rfl : defineAll [] sampleDefs = .ok sampleEnv) (i := 3) (j := 2) rfl rfl
+    { typ := sampleT2, values := [.int 1] } rfl).mpr hr) (by decide)
+
 /-- hypotheses of `C17_schema_partial`: the first sample definition is well-formed in the model's terms -/
 example : WellFormedDef [] (sampleDefs.headD default) := by
   have hdecls : (sampleDefs.headD default).decls (parentOf [] (sampleDefs.headD default)) =
